@@ -299,7 +299,8 @@ let eval (prop : string) (input : Sx.t) (obs : Sx.t) : Sx.t list * bool * bool *
              (match rebuilt with
               | Some (oa, ob) ->
                   if not (List.exists (fun c -> int_of_n c = 37) path) && List.assoc_opt name h.named = Some froute
-                     && not (List.mem_assoc s_route ps) (* the value of a bind named "route" is not delivered *) then begin
+                     && not (List.mem_assoc s_route ps) (* the value of a bind named "route" is not delivered *)
+                     && not (List.mem_assoc s_with_optional ps) (* a bind named "withOptional" shares its name with URLPath's switch *) then begin
                     let want = sx_str (c_slash :: join_slash segs) in
                     if oa <> want && ob <> want then fail (Printf.sprintf "request %s: URLPath of the delivered params gives %s / %s, not the request path" (Sx.show op) (Sx.show oa) (Sx.show ob));
                     nontrivial := true
